@@ -123,7 +123,7 @@ var bytesType = reflect.TypeOf([]byte(nil))
 // field names: longer than three letters (ojg lower-cases shorter names
 // entirely, which the documentation does not spell out), plus two short ones
 // whose tail is lower case already so that both readings agree.
-var fieldNames = []string{"Alpha", "Bravo", "Charlie", "Delta", "Echo", "Foxtrot", "Golf", "Hotel", "India", "Juliet", "Ab", "Xyz", "URLs"}
+var fieldNames = []string{"Alpha", "Bravo", "Charlie", "Delta", "Echo", "Foxtrot", "Golf", "Hotel", "India", "Juliet", "Ab", "Xyz", "URLs", "URL", "ID", "TTl"}
 
 type typeGen struct {
 	r *rand.Rand
